@@ -314,7 +314,9 @@ class GenericCheck(Check):
         key, path_segments = path_segments[0], path_segments[1:]
         try:
             test_value = test_value[key]
-        except KeyError:
+        except (KeyError, TypeError):
+            # a missing key, or a value on the path that is not a
+            # container, cannot match
             return False
         if isinstance(test_value, list):
             for val in test_value:
